@@ -121,7 +121,7 @@ def run(v) -> None:
                         nbits = depths[combo % len(depths)]
                         c = DEPTH_CH[nbits][(combo // 7) % len(DEPTH_CH[nbits])]
                         k = 1 + (combo // 3) % 3
-                        mode = "identity" if combo % 2 else "random"
+                        mode = ("identity", "random", "runs")[combo % 3]
                         one(n, c, nbits, min(k, n), mode, gulp, start, nsamps, skip, "exhaustive")
     # random larger plans
     for _ in range(300 if quick else 20000):
@@ -134,7 +134,7 @@ def run(v) -> None:
         gulp = rng.choice([rng.randrange(1, n + 2), rng.randrange(1, max(2, nsamps // 2 + 1)), nsamps, nsamps + 1])
         g = min(gulp, nsamps)
         skip = rng.choice([0, 0, rng.randrange(0, g // 2 + 1), g // 2, rng.randrange(0, g + 2)])
-        one(n, c, nbits, k, rng.choice(["identity", "random"]), gulp, start, nsamps, skip, "random")
+        one(n, c, nbits, k, rng.choice(["identity", "random", "runs"]), gulp, start, nsamps, skip, "random")
     for s in sets.values():
         s[4]._file.close()
 
